@@ -423,7 +423,9 @@ class Gen:
         p, t = self.expr(ctx)
         k = self.rnd.randint(0, 1)
         self.feat("attr_store")
-        em.both(f"o.at{k} = {p}", f"o.at{k} = {t}")
+        em.both(f"o.at{k} = {p}", f"o.at{k} = __b__({ctx['fn']!r}, 'o.at{k}', {t})")
+        self.attr_names = getattr(self, "attr_names", set())
+        self.attr_names.add(f"o.at{k}")
 
     def s_subscript(self, em, ctx, depth):
         if "o" not in ctx["params"]:
@@ -1059,4 +1061,5 @@ def build_module(rnd, opts=None):
         "closure_write": closure_write,
         "nested_names": g.fn_ctx["f"].get("nested_names", []),
         "declares_global": g.fn_ctx["f"]["declares_global"],
+        "attr_names": sorted(getattr(g, "attr_names", set())),
     }
